@@ -43,7 +43,7 @@ func init() {
 					caps = append(caps, fmt.Sprintf("maxpid=%d", 2+r.Intn(4)))
 				}
 				if r.Intn(8) == 0 {
-					caps = append(caps, "aliasmax=0")
+					caps = append(caps, pick(r, []string{"aliasmax=0", "aliasmax=0", "aliasmax=2", "aliasmax=5"}))
 				}
 				if r.Intn(10) == 0 {
 					caps = append(caps, "obscure=1")
@@ -212,7 +212,14 @@ func init() {
 						if r.Intn(12) == 0 && q > 0 {
 							extra += " d=1"
 						}
-						emit(fmt.Sprintf("bk.send %d PUBLISH q=%d id=%d t=%s p=%s%s", c, q, id, hs(pick(r, topics)), hs(p), extra))
+						topic := pick(r, topics)
+						if ver == 5 && r.Intn(5) == 0 { // inbound topic alias: binding, use (empty topic), rebinding, above the maximum
+							extra += fmt.Sprintf(" ta=%d", pick(r, []int{1, 1, 2, 2, 3, 9}))
+							if r.Intn(2) == 0 {
+								topic = ""
+							}
+						}
+						emit(fmt.Sprintf("bk.send %d PUBLISH q=%d id=%d t=%s p=%s%s", c, q, id, hs(topic), hs(p), extra))
 					case k < 21:
 						emit(fmt.Sprintf("bk.send %d PUBACK id=%d", c, 1+r.Intn(4)))
 					case k < 23:
